@@ -12,12 +12,5 @@ noncomputable def rintR (v : ℝ) : ℝ :=
   if v - f < 1 / 2 then f else if v - f > 1 / 2 then f + 1 else if Even f then f else f + 1
 noncomputable instance : Rint ℝ := ⟨rintR, fun v => (⌊v⌋ : ℝ), fun v => ⌊v⌋.toNat⟩
 
-@[simp] theorem Cmp.eq_real (a b : ℝ) : Cmp.eq a b = decide (a = b) := by
-  unfold Cmp.eq
-  by_cases h : a = b
-  · subst h; simp
-  · have : ¬ (a ≤ b ∧ b ≤ a) := fun ⟨h1, h2⟩ => h (le_antisymm h1 h2)
-    rw [← Bool.decide_and, decide_eq_false this]
-    simp [h]
 
 end
